@@ -301,8 +301,11 @@ class Machine:
             args = [self.ev(a, env) for a in s["args"]]
             env[s["bind"]] = self.call_helper(h, args)
             self.labels.add("helper_call")
+            self.fresh = False
         elif k == "bind":
             env[s["bind"]] = self.ev(s["e"], env)
+            if s["e"][0] not in ("in", "sig", "var", "const", "bconst", "loc"):
+                self.fresh = False  # computing an intermediate value is an action of the process
         elif k == "always":
             e = s["e"]
             env[s["bind"]] = (lambda e=e, env=env: self.ev(e, env))
@@ -323,8 +326,12 @@ class Machine:
         elif k == "await":
             c = s["c"]
             if c == "true":
-                self.pause(("await_true", id(s)))
-                yield
+                # a condition that always holds: one clock, or none when it is the first action
+                if not self.fresh:
+                    self.pause(("await_true", id(s)))
+                    yield
+                else:
+                    self.labels.add("await_first_action")
                 self.fresh = False
             elif c == "false":
                 self.labels.add("await_false")
@@ -373,6 +380,8 @@ class Machine:
         elif k == "awaitsub":
             sub = self.subs[s["sub"]]
             senv = {p: self.ev(a, env) for p, a in zip(sub["params"], s["args"])}
+            if any(a[0] not in ("in", "sig", "var", "const", "loc") for a in s["args"]):
+                self.fresh = False
             self.labels.add("sub_coroutine")
             r = yield from self.exec_block(sub["body"], senv)
             if r is not None and r[0] == "return":
@@ -388,8 +397,9 @@ class Machine:
         return None
 
     def fresh_if(self):
-        # evaluating a branch condition is an action of the process
-        self.fresh_cond_seen = True
+        # evaluating a branch condition is an action of the process: an await/while nested in a
+        # branch is never "the very first action"
+        self.fresh = False
 
     def pause(self, ident):
         self.visited_pauses.add(ident)
